@@ -38,6 +38,33 @@ def r1(ctx):
     if ok:
         ga = guard_atoms(cfg, cfg.node_containing(adds[0]))
         ok = ("gt.is_none()", False) in ga and ("gt.is_homozygous()", False) in ga and u(adds[0].args[0]) == "index"
+    chain_src = None
+    if not adds:
+        # comprehension form, possibly in stages: known = [(i, g) for i, g in enumerate(G) if not g.is_none()];
+        # heterozygous = {i for i, g in known if not g.is_homozygous()} -- the conditions of all stages apply to an element
+        d_ = util.single_def(run.node, "heterozygous")
+        conds, src, elt, ok = set(), None, None, None
+        hops = 0
+        while isinstance(d_, (ast.SetComp, ast.ListComp, ast.GeneratorExp)) and len(d_.generators) == 1 and hops < 4:
+            g_ = d_.generators[0]
+            if elt is None:
+                elt, tnames = d_.elt, [u(x_) for x_ in (g_.target.elts if isinstance(g_.target, ast.Tuple) else [g_.target])]
+            elif u(d_.elt) != u(g_.target) or [u(x_) for x_ in (g_.target.elts if isinstance(g_.target, ast.Tuple) else [g_.target])] != tnames:
+                break  # a stage that changes the elements: not read
+            for c_ in g_.ifs:
+                conds |= atoms(c_, True)
+            hops += 1
+            if isinstance(g_.iter, ast.Name):
+                nd_ = util.single_def(run.node, g_.iter.id)
+                if isinstance(nd_, (ast.SetComp, ast.ListComp, ast.GeneratorExp)):
+                    d_ = nd_
+                    continue
+            src = g_.iter
+            break
+        if src is not None and elt is not None and len(tnames) == 2:
+            iv, gv = tnames
+            ok = u(elt) == iv and ("%s.is_none()" % gv, False) in conds and ("%s.is_homozygous()" % gv, False) in conds and isinstance(src, ast.Call) and u(src.func) == "enumerate" and len(src.args) == 1
+            chain_src = src.args[0] if isinstance(src, ast.Call) and src.args else None
     ctx.ob(run.qual, "heterozygous-set-filled-for-present-het-calls", ok, run.loc(adds[0]) if adds else run.loc(), "an index enters `heterozygous` only if the genotype is present and not homozygous" if ok else "`heterozygous` is filled under other conditions")
     td = util.single_def(run.node, "to_discard")
     ok = td is not None and u(td) in ("set(range(len(variant_table))).difference(heterozygous)", "set(range(len(variant_table))) - heterozygous")
@@ -49,6 +76,8 @@ def r1(ctx):
     gl = [n for n in walk_function(run.node) if isinstance(n, ast.For) and u(n.iter) == "enumerate(genotypes)"]
     gd = util.single_def(run.node, "genotypes")
     ok = (None if not gl else (len(gl) == 1 and gd is not None and u(gd) == "variant_table.genotypes_of(sample)"))
+    if not gl and chain_src is not None:
+        ok = u(util.expand_single_defs(run.node, chain_src)) == "variant_table.genotypes_of(sample)"
     ctx.ob(run.qual, "classification-over-the-samples-genotypes", ok, run.loc(), "the classification runs over the sample's own genotype column" if ok else "genotype column of the classification changed")
     ps = [c for c in ctx.prog.calls_in(run.node) if u(c.func) == "phase_single_individual"]
     ok = (None if not ps else (len(ps) == 1 and [u(a) for a in ps[0].args[:3]] == ["readset", "phasable_variant_table", "sample"]))
@@ -138,7 +167,7 @@ def r2(ctx):
     # singleton shortcut from the genotype itself
     pcfg = ctx.cfg(pb)
     # the haplotypes handed to PolyphaseBlockResult in the one-variant branch: allele a exactly genotype[a] times
-    rets_ = [r_ for r_ in walk_function(pb.node) if isinstance(r_, ast.Return) and isinstance(r_.value, ast.Call) and u(r_.value.func) == "PolyphaseBlockResult" and len(r_.value.args) >= 4 and any(t_.startswith("block_num_vars < 2") or t_ == "2 <= block_num_vars" or "block_num_vars" in t_ for t_, _p in guard_atoms(pcfg, pcfg.node_of(r_)))]
+    rets_ = [r_ for r_ in walk_function(pb.node) if isinstance(r_, ast.Return) and isinstance(r_.value, ast.Call) and u(r_.value.func) == "PolyphaseBlockResult" and len(r_.value.args) >= 4 and any(t_.startswith("block_num_vars < 2") or t_ == "2 <= block_num_vars" or "block_num_vars" in t_ or "getNumPositions() < 2" in t_ or "2 <= allele_matrix.getNumPositions()" in t_ for t_, _p in guard_atoms(pcfg, pcfg.node_of(r_)))]
     ok = None
     if len(rets_) == 1:
         harg = rets_[0].value.args[3]
